@@ -392,10 +392,12 @@ def is_overflow_test(e: ast.AST) -> str | None:
     for n in ast.walk(e):
         if isinstance(n, ast.Call) and (call_name(n) or '').endswith('._is_overflowing'):
             return 'overflow'
-        if isinstance(n, ast.Compare) and len(n.ops) == 1:
+        if isinstance(n, ast.Compare) and len(n.ops) == 1 and isinstance(n.ops[0], (ast.Gt, ast.Lt, ast.GtE, ast.LtE)):
             l, r = dotted(n.left) or '', dotted(n.comparators[0]) or ''
-            if l.endswith('.e') and r in ('self.emax', 'self.emin') and isinstance(n.ops[0], (ast.Gt, ast.Lt, ast.GtE, ast.LtE)):
-                return 'overflow' if r == 'self.emax' else 'underflow'
+            # either orientation: `rounded.e < self.emin` or `self.emin > rounded.e`
+            for val, ext in ((l, r), (r, l)):
+                if val.endswith('.e') and ext in ('self.emax', 'self.emin'):
+                    return 'overflow' if ext == 'self.emax' else 'underflow'
     return None
 
 
@@ -964,6 +966,76 @@ ASSUMPTIONS = [
     'numerical sub-steps (split, bit extraction, carry, tininess) are correct',
 ]
 
+def t6_range_predicates(ctx: Ctx):
+    """The named extremes (emin / emax, the two maxvals) are members of their format, so "out of range" is strictly
+    beyond them and "representable" includes them.  Each predicate is evaluated for the value just below, at and just
+    above each extreme -- the only distinctions the comparisons can make."""
+    from .c19 import ieval, outcome
+    LO, HI = -10, 10
+    # overflow predicates of the bounded contexts
+    for rel, cls in ((CTXDIR + 'mpb_fixed.py', 'MPBFixedContext'), (CTXDIR + 'mpb_float.py', 'MPBFloatContext')):
+        fn = ctx.fn(rel, f'{cls}._is_overflowing')
+        body = [s for s in fn.body if not (isinstance(s, ast.Expr) and isinstance(s.value, ast.Constant))]
+        bad = None
+        for neg in (True, False):
+            for v in (LO - 1, LO, LO + 1, 0, HI - 1, HI, HI + 1):
+                if neg != (v < 0) and v != 0:
+                    continue
+                env = {'x.s': neg, 'x': v, 'self.neg_maxval': LO, 'self.pos_maxval': HI}
+                k, n = outcome(body, env)
+                got = bool(ieval(n.value, env)) if k == 'return' else None  # type: ignore
+                want = v < LO if neg else v > HI
+                if got != want and bad is None:
+                    bad = f'x = {"neg_maxval" if neg else "pos_maxval"}{v - (LO if neg else HI):+d}: overflowing = {got}, expected {want}'
+        ctx.check(bad is None, rel, fn, f'{cls}._is_overflowing', 'a value overflows exactly when it lies strictly beyond the largest magnitude of its sign',
+                  (bad or '') + ': the largest representable value itself would be treated as an overflow (or the first value beyond it would not)')
+    # membership predicates
+    for rel, cls in ((CTXDIR + 'mpb_fixed.py', 'MPBFixedFormat'), (CTXDIR + 'mpb_float.py', 'MPBFloatFormat')):
+        if not ctx.repo.has_func(rel, f'{cls}.representable_in'):
+            continue
+        fn = ctx.fn(rel, f'{cls}.representable_in')
+        tail = [s for s in fn.body if isinstance(s, (ast.If, ast.Return))][-2:]
+        bad = None
+        for neg in (True, False):
+            for v in (LO - 1, LO, LO + 1, HI - 1, HI, HI + 1):
+                if neg != (v < 0):
+                    continue
+                env = {'x.s': neg, 'x': v, 'self.neg_maxval': LO, 'self.pos_maxval': HI}
+                k, n = outcome(tail, env)
+                got = bool(ieval(n.value, env)) if k == 'return' else None  # type: ignore
+                want = v >= LO if neg else v <= HI
+                if got != want and bad is None:
+                    bad = f'x at extreme{v - (LO if neg else HI):+d}: representable = {got}, expected {want}'
+        ctx.check(bad is None, rel, fn, f'{cls}.representable_in', 'a value within the bounds, the bounds included, is a member', bad or '')
+    # the exponential family: exponent range
+    rel = CTXDIR + 'exponential.py'
+    fn = ctx.fn(rel, 'ExpContext._round_at')
+    arms = [s for s in walk_no_nested(fn) if isinstance(s, ast.If) and any('_set_overflow(True)' in norm(b) for b in ast.walk(s) if isinstance(b, ast.Expr))]
+    if not arms:
+        raise ShapeError('ExpContext._round_at: no flag-setting range arm')
+    top = arms[0]
+    chain = [top.test] + ([top.orelse[0].test] if top.orelse and isinstance(top.orelse[0], ast.If) else [])
+    bad = None
+    for e in (LO - 1, LO, LO + 1, HI - 1, HI, HI + 1):
+        env = {'rounded.e': e, 'self.emin': LO, 'self.emax': HI}
+        taken = [bool(ieval(t, env)) for t in chain]
+        under, over = taken[0], (not taken[0] and len(taken) > 1 and taken[1])
+        if (under, over) != (e < LO, e > HI) and bad is None:
+            bad = f'exponent = {"emin" if abs(e - LO) <= 1 else "emax"}{e - (LO if abs(e - LO) <= 1 else HI):+d}: underflow arm {under}, overflow arm {over}'
+    ctx.check(len(chain) == 2 and bad is None, rel, top, 'ExpContext._round_at', 'the range arms are taken exactly for exponents strictly below emin / above emax (2^emin and 2^emax are members)',
+              (bad or 'range arms not found') + ': the smallest or largest power of two would come back flagged or replaced')
+    fmt = ctx.fn(rel, 'ExpFormat.representable_in') if ctx.repo.has_func(rel, 'ExpFormat.representable_in') else None
+    if fmt is not None:
+        rets = [s for s in walk_no_nested(fmt) if isinstance(s, ast.Return)]
+        last = rets[-1].value
+        bad = None
+        for e in (LO - 1, LO, LO + 1, HI - 1, HI, HI + 1):
+            got = bool(ieval(last, {'x.e': e, 'self.emin': LO, 'self.emax': HI}))
+            if got != (LO <= e <= HI) and bad is None:
+                bad = f'exponent {e} with range [{LO}, {HI}]: member = {got}'
+        ctx.check(bad is None, rel, fmt, 'ExpFormat.representable_in', 'a power of two is a member exactly for emin <= e <= emax', bad or '')
+
+
 def _f2_round_to_odd(ctx: Ctx):
     # a Fraction (or any operand that is not a dyadic rational) is rounded by `mpfr_call`, the same
     # wrapper the arithmetic engines use; its structure is decided once, in engine_rules
@@ -985,6 +1057,7 @@ RULES = [
     Rule('C01.F1b', 'every result of a context rounding is tagged with that context', f1b_result_tagged, 30, 'F'),
     Rule('C01.P3', 'inexact iff digits lost; exact=True refuses; flags and increment wiring in RealFloat._round_at', p3_inexact, 12, 'P'),
     Rule('C01.X2', 'Context._round_prepare operand-kind table', x2_round_prepare, 8, 'X'),
+    Rule('C01.T6', 'range predicates are strict against the extremes (which are members): _is_overflowing, representable_in, ExpContext exponent range', t6_range_predicates, 5, 'T'),
     Rule('C01.F2', 'non-dyadic operands reach the format through the round-to-odd wrapper: RoundToZero, prec+2 digits, ternary, sticky fold (= C02.F1)', _f2_round_to_odd, 12, 'F'),
 ]
 
@@ -1003,6 +1076,11 @@ _EF = CTXDIR + 'efloat.py'
 _EXP = CTXDIR + 'exponential.py'
 
 MUTANTS = [
+    Mutant('smallest-power-underflows', CTXDIR + 'exponential.py', "        if rounded.e < self.emin:", "        if rounded.e <= self.emin:", 'C01.T6',
+           'seeded change C01b: ExpContext(8).round(2**-127) comes back NaN / flagged'),
+    Mutant('largest-value-overflows', CTXDIR + 'mpb_fixed.py', "        return x > self.pos_maxval\n\n    def _overflow_to_infinity", "        return x >= self.pos_maxval\n\n    def _overflow_to_infinity", 'C01.T6'),
+    Mutant('bound-excluded-from-format', CTXDIR + 'mpb_float.py', "            return self.neg_maxval <= x\n        return x <= self.pos_maxval", "            return self.neg_maxval < x\n        return x <= self.pos_maxval", 'C01.T6'),
+    Mutant('range-test-respelled', CTXDIR + 'exponential.py', "        if rounded.e < self.emin:", "        if self.emin > rounded.e:", 'C01.T6', expect='silent', why='the same comparison'),
     Mutant('probe-accepted-one-digit-early', 'fpy2/number/gmputils.py', "        if e <= n:\n            return _round_odd(result, result.rc != 0)", "        if e <= n + 1:\n            return _round_odd(result, result.rc != 0)", 'C01.F2',
            'seeded change C01a: MPFixedContext(-1).round(Fraction(6, 5)) = 2'),
     Mutant('rtp-negative-away', ROUND,
